@@ -165,32 +165,48 @@ _SCHEMA_CLASS = {"ObjId": "plain", "ObjName": "plain", "Str": "plain", "Arr": "p
                  "ObjNullProp": "nullable", "ObjWO": "writeOnly", "ObjWO2": "writeOnly-two", "-": "none"}
 
 
-def signature(D: dict, resp: dict, feat: dict, kind: str, direction: str) -> str:
-    """<direction>:<kind> + the definition / response features the verdict for that kind depends on (Appendix E)."""
+def signature_parts(D: dict, resp: dict, feat: dict, kind: str, direction: str) -> tuple[str, list[str]]:
+    """(base, extras): base = direction, kind, which key governs, matched media type / Content-Type class / header types;
+    extras = schema class, $ref usage, dialect - kept in the signature only when no failure with the same base occurs
+    without them (i.e. when they are necessary for the failure; DESIGN Appendix E)."""
     d = D["d"]
     parts = ["key=" + feat["gov"]]
+    extras: list[str] = []
     if kind in ("JsonSchemaError", "MalformedJson") or direction == "crash":
         parts.append("mediaType#%d" % feat["mt"])
-        if kind == "JsonSchemaError":
-            parts.append("schema=" + _SCHEMA_CLASS.get(feat["schema"], feat["schema"]))
         if feat["ct"] != "documented":
             parts.append("contentType=" + feat["ct"])
-        if d["refSchema"] and kind == "JsonSchemaError":
-            parts.append("$ref-schema")
+        if kind == "JsonSchemaError":
+            cls = _SCHEMA_CLASS.get(feat["schema"], feat["schema"])
+            if cls != "plain":
+                extras.append("schema=" + cls)
+            if d["refSchema"]:
+                extras.append("$ref-schema")
     elif kind in ("MissingContentType", "UndefinedContentType", "MalformedMediaType"):
         parts.append("contentType=" + feat["ct"])
     elif kind in ("MissingHeaders", "HeaderSchema"):
-        types = sorted({(h["schema"].get("s", {}).get("type") or ["?"])[0] for r in d["resps"] for h in r["headers"]
-                        if any(uncps(h["name"]).lower() == uncps(s["name"]).lower() for s in resp["hdrs"])})
         if kind == "HeaderSchema":
+            types = sorted({(h["schema"].get("s", {}).get("type") or ["?"])[0] for r in d["resps"] for h in r["headers"]
+                            if any(uncps(h["name"]).lower() == uncps(s["name"]).lower() for s in resp["hdrs"])})
             parts.append("header:" + "+".join(types))
         if d["refHeader"]:
-            parts.append("$ref-header")
+            extras.append("$ref-header")
     if d["refResp"]:
-        parts.append("$ref-response")
+        extras.append("$ref-response")
     if d["dialect"] == "2.0":
-        parts.append("swagger2")
-    return "C04:%s:%s:%s" % (direction, kind.split(":")[0] if direction != "crash" else kind, "+".join(parts))
+        extras.append("swagger2")
+    return "C04:%s:%s:%s" % (direction, kind, "+".join(parts)), extras
+
+
+def signature(D: dict, resp: dict, feat: dict, kind: str, direction: str, seen: dict | None = None) -> str:
+    """`seen`: base -> extras sets of all failures of this run; the smallest one contained in this failure's extras is kept."""
+    base, extras = signature_parts(D, resp, feat, kind, direction)
+    if seen is not None:
+        fits = [y for y in seen.get(base, ()) if y <= set(extras)]
+        if fits:
+            keep = min(fits, key=lambda y: (len(y), sorted(y)))
+            extras = [x for x in extras if x in keep]
+    return base + "".join("+" + x for x in extras)
 
 
 def _short(D: dict, resp: dict) -> str:
@@ -267,11 +283,15 @@ def run(ctx: Ctx) -> Outcome:
         raise tlc.TLCFailure("judge (TLC) and exporter disagree on %d verdicts - machinery inconsistency: %s" % (
             len(tlc_dis ^ py_dis), sorted(tlc_dis ^ py_dis)[:5]))
 
+    seen: dict[str, set] = {}
+    for n, kind, direction in dis:
+        base, extras = signature_parts(_DEFS[cases[n][0]], cases[n][1]["resp"], cases[n][1]["feat"], kind, direction)
+        seen.setdefault(base, set()).add(frozenset(extras))
     for n, kind, direction in dis:
         di, c = cases[n]
         D = _DEFS[di]
         out.violations.append(Violation(
-            signature(D, c["resp"], c["feat"], kind, direction),
+            signature(D, c["resp"], c["feat"], kind, direction, seen),
             "%s %s: expected=%s reported=%s for %s" % (direction, kind, {k: v for k, v in c["exp"].items() if v != "F"}, obs[n], _short(D, c["resp"])),
             {"D": D, "resp": c["resp"], "exp": c["exp"], "feat": c["feat"], "document": build_document(D)},
         ))
